@@ -44,11 +44,27 @@ impl RustDocument {
         extend_no_duplicates(&mut self.namespaces, other.namespaces);
         extend_no_duplicates(&mut self.target_namespaces, other.target_namespaces);
 
-        self.nodes.extend(other.nodes);
+        // a file that is imported along two paths contributes its components once
+        for node in other.nodes {
+            if !self.nodes.iter().any(|known| Rc::ptr_eq(known, &node)) {
+                self.nodes.push(node);
+            }
+        }
         self.soap_messages.extend(other.soap_messages);
         self.soap_ports.extend(other.soap_ports);
         self.soap_bindings.extend(other.soap_bindings);
         self.soap_services.extend(other.soap_services);
+    }
+
+    /// The namespaces and schema components of this document, shared (not copied) with the returned document.
+    pub(crate) fn shared_components(&self) -> Self {
+        Self {
+            namespace_lookup: self.namespace_lookup.clone(),
+            namespaces: self.namespaces.clone(),
+            target_namespaces: self.target_namespaces.clone(),
+            nodes: self.nodes.clone(),
+            ..Self::empty()
+        }
     }
 
     pub fn empty() -> Self {
